@@ -3,7 +3,9 @@ package chrootsim
 import (
 	"bytes"
 	"fmt"
+	"os"
 	"path"
+	"path/filepath"
 	"runtime/debug"
 	"strings"
 	"sync"
@@ -11,6 +13,7 @@ import (
 
 	"github.com/anz-bank/golden-retriever/reader/remotefs"
 	"github.com/sirupsen/logrus"
+	"google.golang.org/protobuf/encoding/prototext"
 
 	"github.com/anz-bank/sysl/pkg/loader"
 	"github.com/anz-bank/sysl/pkg/parse"
@@ -33,6 +36,49 @@ type LCase struct {
 	Hostlike int               `json:"hostlike_imports,omitempty"`
 	// RootSpell: how an explicit root is written on the command line ("" = as Root)
 	RootSpell string `json:"root_spelling,omitempty"`
+	// ExtRef != "": the module imports a Swagger document (api/spec.yaml under the root)
+	// one of whose definitions is a $ref to this other file; RefInside says whether that
+	// path stays inside the root.
+	ExtRef    string `json:"external_ref,omitempty"`
+	RefInside bool   `json:"external_ref_inside,omitempty"`
+}
+
+// GenExtRefCase: a foreign specification that refers to another file.  The referenced file
+// is read "on behalf of a specification" like an import is.
+func GenExtRefCase(seed uint64) *LCase {
+	r := core.NewRand(seed)
+	c := &LCase{Seed: seed, Files: map[string]string{}, Faults: map[string]string{}, Explicit: true}
+	c.Root = []string{"/proj", "/w/proj"}[r.Intn(2)]
+	type ref struct {
+		spell  string
+		inside bool
+	}
+	refs := []ref{
+		{"../../secret.yaml", false},        // from <root>/api: one level above the root
+		{"../../../etc/secret.yaml", false}, // further up and down again
+		{"/secret/secret.yaml", false},      // absolute
+		{"../defs/common.yaml", true},       // a sibling directory inside the root
+		{"common.yaml", true},               // next to the specification
+		{"./sub/../common.yaml", true},
+	}
+	x := refs[r.Intn(len(refs))]
+	c.ExtRef, c.RefInside = x.spell, x.inside
+	def := func(name, field string) string {
+		return "swagger: \"2.0\"\ninfo:\n  title: Defs\n  version: \"1\"\npaths: {}\ndefinitions:\n  " + name + ":\n    type: object\n    properties:\n      " + field + ":\n        type: string\n"
+	}
+	in := func(p string) string { return path.Join(c.Root, p) }
+	c.Files[in("main.sysl")] = "import api/spec.yaml as Foo :: Api ~swagger\n\nApp:\n    !type T:\n        x <: int\n"
+	c.Files[in("api/spec.yaml")] = "swagger: \"2.0\"\ninfo:\n  title: T\n  version: \"1\"\npaths: {}\ndefinitions:\n  Local:\n    type: object\n    properties:\n      s:\n        $ref: \"" +
+		x.spell + "#/definitions/Other\"\n"
+	c.Files[in("api/common.yaml")] = def("Other", "common_field_name")
+	c.Files[in("defs/common.yaml")] = def("Other", "common_field_name")
+	for _, p := range []string{"/secret.yaml", "/w/secret.yaml", "/etc/secret.yaml", "/w/etc/secret.yaml", "/secret/secret.yaml", "/api/secret.yaml"} {
+		if !strings.HasPrefix(p, c.Root+"/") {
+			c.Files[p] = def("Other", "leaked_field_name")
+		}
+	}
+	c.Module = "main.sysl"
+	return c
 }
 
 type lfile struct {
@@ -217,6 +263,7 @@ type LResult struct {
 	Apps    []string
 	Escapes []string
 	Ops     int
+	Model   string // text form of the compiled model (external-reference cases only)
 }
 
 var logOnce sync.Once
@@ -291,6 +338,23 @@ func RunLCaseExec(c *LCase, cnt core.Counters, exec Exec, allow []string) (*LRes
 		}
 		return nil
 	}
+	if c.ExtRef != "" && exec == nil {
+		// canaries on the real disk: the same referenced file, placed where a read that
+		// bypasses the simulated disk and resolves against the working directory of the
+		// process would find it
+		if tmp, err := os.MkdirTemp("", "extref"); err == nil {
+			defer os.RemoveAll(tmp)
+			cw := filepath.Join(tmp, "a", "b", "c", "cw")
+			_ = os.MkdirAll(cw, 0o755)
+			_ = os.MkdirAll(filepath.Join(tmp, "a", "b", "etc"), 0o755)
+			canary := []byte(c.Files["/secret/secret.yaml"])
+			_ = os.WriteFile(filepath.Join(tmp, "a", "b", "c", "secret.yaml"), canary, 0o644)
+			_ = os.WriteFile(filepath.Join(tmp, "a", "b", "etc", "secret.yaml"), canary, 0o644)
+			if old, err := os.Getwd(); err == nil && os.Chdir(cw) == nil {
+				defer func() { _ = os.Chdir(old) }()
+			}
+		}
+	}
 	func() {
 		defer func() {
 			if r := recover(); r != nil {
@@ -324,6 +388,9 @@ func RunLCaseExec(c *LCase, cnt core.Counters, exec Exec, allow []string) (*LRes
 		}
 		res.OK = true
 		res.Apps = core.SortedKeys(m.Apps)
+		if c.ExtRef != "" {
+			res.Model = prototext.Format(m)
+		}
 	}()
 
 	var vs []V
@@ -352,6 +419,21 @@ func RunLCaseExec(c *LCase, cnt core.Counters, exec Exec, allow []string) (*LRes
 				}
 			}
 		}
+	}
+	if c.ExtRef != "" {
+		// the referenced file is outside the root: it must not be read, whatever else
+		// happens; inside the root: the reference resolves against the specification's own
+		// directory, under the root
+		cnt.Inc("lcase_external_reference_of_a_foreign_specification")
+		if exec == nil && !c.RefInside && res.OK {
+			vs = append(vs, V{Class: "escape-not-refused", Detail: fmt.Sprintf("$ref %q in %s/api/spec.yaml leaves root %q, yet the compile succeeded: the referenced file was read (from the real disk, "+
+				"relative to the working directory of the process, if the simulated disk saw no call)", c.ExtRef, c.Root, expRoot)})
+		}
+		if exec == nil && c.RefInside && !(res.OK && strings.Contains(res.Model, "\"Other\"")) && res.Panic == "" {
+			vs = append(vs, V{Class: "inside-path-broken", Detail: fmt.Sprintf("$ref %q in %s/api/spec.yaml stays inside the root and exists, but the compile failed or lacks the reference (%s)", c.ExtRef, c.Root,
+				core.Trunc(core.OneLine(res.Err), 300))})
+		}
+		return res, vs
 	}
 	// functional expectation from the abstract tree
 	if exp.reentry {
